@@ -25,6 +25,11 @@
     marked_elements_are_xpath_matches real_positional_not_lawful real_positional_counts_per_closure
     once_on_trees stage_counts_matches late_registration_applies_from_there_on lazy_eq_eager_late
     select_is_path_select real_once_on_trees
+    xpath_spec_eq_marks_spec marks_are_xpath_matches_every_strategy real_template_rewrites_xpath_matches
+    xpath_criterion_is_nonpositional buffer_hint_irrelevant_late
+    once_replaces_first_match real_once_replaces_first_match union_attribute_operand_masks_match
+    filter_is_chain_of_rewrites_with_once real_filter_is_chain_of_rewrites_with_once
+    real_once_replaces_first_xpath_match
 -/
 import Genshi.Lemmas.MatchSync
 import Genshi.Lemmas.MatchPipe
@@ -45,6 +50,11 @@ import Genshi.Lemmas.MatchOnceSpec
 import Genshi.Lemmas.MatchLate
 import Genshi.Lemmas.MatchSelect
 import Genshi.Lemmas.MatchRealOnce
+import Genshi.Lemmas.MatchXpInst
+import Genshi.Lemmas.MatchLateHints
+import Genshi.Lemmas.MatchRealOnceTree
+import Genshi.Lemmas.MatchChainOnce
+import Genshi.Lemmas.MatchOnceXp
 import Genshi.Props.C05
 namespace Genshi.Props.C12
 open Genshi Genshi.Match
@@ -716,6 +726,27 @@ example : Segmented docLate := by
   · intro st; simp [evs, track, S, E]
 example : (run 30 0 none docLate []).map (·.2) = some [S 'a', E 'a', S 'w', S 'b', E 'b', E 'w'] := by decide
 
+/-- **buffer_hint_irrelevant with registrations inside the stream** (`Segmented`: `py:match`
+    declarations between closed segments of the template).  Take two streams that differ only in the
+    `buffer` hints of the templates they register (`items'`: any assignment of the hint) and two initial
+    template lists that differ only in their `buffer` hints; unbuffered bodies call `select()` at most
+    once.  The automaton that honours the hints of `items'`/`mts'` yields, given enough fuel, exactly the
+    output of the eager filter (every content buffered) over `items`/`mts`, and leaves the same template
+    list up to the hints.  Paths are unrestricted (positional predicates included). -/
+theorem buffer_hint_irrelevant_late {σ : Type} (items items' : List (Item σ)) (hseg : Segmented items)
+    (hitems : items'.map Item.bufOn = items.map Item.bufOn) (f : Nat) (mts mts' : List (MT σ))
+    (r : List (MT σ) × List Event) (hsame : mts'.map bufOn = mts.map bufOn)
+    (hok : ∀ t ∈ mts', LazyOK t) (hreg : ∀ t, Item.reg t ∈ items' → LazyOK t)
+    (h : run f 0 none items mts = some r) :
+    ∃ F0 m', m'.map bufOn = r.1.map bufOn ∧ ∀ F, F0 ≤ F → runL F .idle items' mts' = some (.idle, m', r.2) :=
+  buffer_hint_irrelevant_seg items items' hseg hitems f mts mts' r hsame hok hreg h
+
+/-- non-vacuity: `docLate` with the late declaration unbuffered (`buffer="false"`, one `select`) -/
+def docLateU : List (Item PSt) :=
+  [.ev (S 'a'), .ev (E 'a'), .reg { tWrap with buffered := false }, .ev (S 'a'), .ev (S 'b'), .ev (E 'b'), .ev (E 'a')]
+example : docLateU.map Item.bufOn = docLate.map Item.bufOn := rfl
+example : (runL 30 .idle docLateU []).map (·.2.2) = some [S 'a', E 'a', S 'w', S 'b', E 'b', E 'w'] := by decide
+
 /-! ### select() inside the body is `Path.select` of the path model -/
 
 open Genshi.Path in
@@ -748,5 +779,250 @@ theorem real_once_on_trees (ns : NsMap) (vs : Vars) (ds : List Decl) (hok : ∀ 
 
 /-- non-vacuity: `a//c[@k]` fires once in `forestR` -/
 example : countList (dACk.real [] []) (dACk.real [] []).st [] forestR = 1 := by decide +kernel
+
+/-! ### the XPath form of the specification: every strategy, unions, whole forests -/
+
+open Genshi.Path in
+/-- **The two forms of the specification are one function.**  `xpForest ∘ patternSel` — replace the
+    element at LOCATION `loc` of a top-level tree iff the XPath reference semantics says that some
+    location path `s0/rest` of the match path, read as the pattern `descendant-or-self::s0/rest` from the
+    top of that tree, reaches it (`Ref.reach`) — is `mkKids ∘ patternMarks` — replace the element whose
+    START is the n-th EVENT iff the real matcher, run over the tree, answers `True` there.  For every
+    union of location paths under the strategy `Path.__init__` picks for each (or a forced one) that
+    satisfies the static criterion `PatternXp` (no position tests, no attribute axis, no leading `.`),
+    every body, both values of `recursive`, and every forest of leaves and clean element trees. -/
+theorem xpath_spec_eq_marks_spec (ns : NsMap) (vs : Vars) (force : Option Strategy) (paths : List LocPath)
+    (hp : ∀ p ∈ paths, PatternXp ns vs force p) (body : List BItem) (recursive : Bool) (forest : List Node)
+    (ht : ∀ top ∈ forest, TreeFor ns vs paths top) :
+    xpForest (patternSel paths ns (toXVars vs)) body recursive forest
+      = (mkKids body recursive forest (forest.flatMap (patternMarks paths ns vs force))).1 :=
+  (xpForest_eq_mkKids ns vs force paths body recursive forest
+    (fun top hm => topOk_of_static ns vs force paths hp top (ht top hm))).symm
+
+open Genshi.Path in
+/-- **marked_elements_are_xpath_matches for the default strategy of every path** (and unions).  On a clean
+    element tree the verdicts of `Path(text).test(ignore_context=True)` — SingleStepStrategy,
+    SimplePathStrategy or GenericStrategy per location path as `Path.__init__` chooses, `_multi` on top —
+    are exactly the marks of the XPath pattern relation: the event of the node at `loc` is answered `True`
+    iff `descendant-or-self::s0/rest` reaches `loc` for one of the location paths; END events are never
+    marked.  (C05 `pattern_matches_eq_xp`, `pattern_matches_eq_xp_fragments`; C17 `single_eq_generic` in
+    pattern mode; C05 `operands_run` for the union.) -/
+theorem marks_are_xpath_matches_every_strategy (ns : NsMap) (vs : Vars) (force : Option Strategy)
+    (paths : List LocPath) (hp : ∀ p ∈ paths, PatternXp ns vs force p)
+    (tag : QName) (attrs : AttrList) (kids : List Node) (ht : TreeFor ns vs paths (.elem tag attrs kids)) :
+    patternMarks paths ns vs force (.elem tag attrs kids)
+      = markB (patternSel paths ns (toXVars vs) (.elem tag attrs kids)) (eventLocs (.elem tag attrs kids) []) :=
+  patternMarks_eq_markB ns vs force _ paths
+    (fun p hpm => patOperand_of_static ns vs force p (hp p hpm) tag attrs kids ht.1 (ht.2 p hpm))
+
+open Genshi.Path in
+/-- the XPath criterion lies inside the position-test-free subset: `PatternXp` gives `Decl.ok` -/
+theorem xpath_criterion_is_nonpositional (ns : NsMap) (vs : Vars) (d : Decl)
+    (hp : ∀ p ∈ d.paths, PatternXp ns vs d.force p) : d.ok ns vs :=
+  pathsOk_of_patternOk ns vs d.paths d.force (fun p hpm => patternOk_of_patternXp ns vs d.force p (hp p hpm))
+
+open Genshi.Path in
+/-- **A match template replaces exactly the elements its path matches in the XPath sense.**  The stage of
+    the filter that owns declaration `d` (slot `i`, no `once`; the other declarations free of position
+    tests), on a forest of leaves and clean element trees: its output is the forest in which precisely the
+    elements reached by the XSLT-pattern reading of `d`'s path (`patternSel`: `Ref.reach` of
+    `descendant-or-self::s0/rest` inside the element's top-level tree, for one of the location paths of
+    the union) are replaced by the body — outermost first, inside a replaced element only when the
+    template is recursive — and everything else passes unchanged.  For the strategy `Path.__init__` picks
+    for every location path (SingleStep, SimplePath, Generic) as well as a forced one. -/
+theorem real_template_rewrites_xpath_matches (ns : NsMap) (vs : Vars) (ds : List Decl) (hok : ∀ d ∈ ds, d.ok ns vs)
+    (i : Nat) (d : Decl) (hd : ds[i]? = some d) (ho : d.hints.matchOnce = false)
+    (hp : ∀ p ∈ d.paths, PatternXp ns vs d.force p)
+    (f : Nat) (forest : List Node) (r : List (MT RSt) × List Event) (hns : okList forest = true)
+    (ht : ∀ top ∈ forest, TreeFor ns vs d.paths top)
+    (h : run f i (some (i + 1)) (evItems (flattenList forest)) (ds.map (Decl.real ns vs)) = some r) :
+    r.2 = xpForest (patternSel d.paths ns (toXVars vs)) d.body (!d.hints.notRecursive) forest := by
+  rw [(real_stage_is_marks ns vs ds hok i d hd ho f forest r hns h).2]
+  exact (xpath_spec_eq_marks_spec ns vs d.force d.paths hp d.body _ forest ht).symm
+
+section XpExamples
+open Genshi.Path
+
+/-- `a/b` as SimplePathStrategy sees it: one bound fragment -/
+def fragsAB : List Frag := [⟨[.localName false ['a'], .localName false ['b']], [0, 0], none, false⟩]
+
+theorem patternXp_dU : ∀ p ∈ dU.paths, PatternXp [] [] dU.force p := by
+  intro p hp
+  simp only [dU, List.mem_cons, List.not_mem_nil, or_false] at hp
+  rcases hp with rfl | rfl
+  · have hch : stratOf none [⟨.child, .localName false ['a'], []⟩, ⟨.child, .localName false ['b'], []⟩] = .simple := by
+      decide +kernel
+    unfold PatternXp
+    rw [show dU.force = none from rfl, hch]
+    exact ⟨fragsAB, Frags.fragsOk_of_B _ (by decide), by decide, by decide⟩
+  · have hch : stratOf none [⟨.child, .localName false ['c'], []⟩] = .single := by decide +kernel
+    unfold PatternXp
+    rw [show dU.force = none from rfl, hch]
+    refine ⟨_, rfl, by simp, ?_, ?_, ?_, ?_⟩ <;> intro s hs <;> simp only [List.mem_cons, List.not_mem_nil, or_false] at hs <;>
+      subst hs <;> simp [NodeTest.elemWf]
+
+theorem patternXp_dACk : ∀ p ∈ dACk.paths, PatternXp [] [] dACk.force p := by
+  intro p hp
+  simp only [dACk, List.mem_cons, List.not_mem_nil, or_false] at hp
+  subst hp
+  have hch : stratOf none pACk = .generic := by decide +kernel
+  unfold PatternXp
+  rw [show dACk.force = none from rfl, hch]
+  exact ⟨stepsOk_pACk, by decide⟩
+
+/-- the trees of `forestR` are clean, and `@k` can be evaluated on every node -/
+theorem treeFor_forestR : ∀ top ∈ forestR, TreeFor [] [] dACk.paths top := by
+  intro top ht
+  simp only [forestR, List.mem_cons, List.not_mem_nil, or_false] at ht
+  rcases ht with rfl | rfl <;> refine ⟨by decide, ?_⟩ <;> intro p hp <;>
+    simp only [dACk, List.mem_cons, List.not_mem_nil, or_false] at hp <;> subst hp <;>
+    simp [AllNodes, AllList, NodeFor, nodeOk, tagsOk, attrsOk, qnOk, pACk, Expr.absentFree, nodeEvent] <;> decide
+
+/-- the location form on `forestR`: the first `<c>` (inside `<a>`, with `k`) is replaced -/
+example : xpForest (patternSel dACk.paths [] (toXVars [])) dACk.body true forestR
+    = [S 'a', S 'b', S 'x', E 'x', .start ⟨[], ['c']⟩ [], E 'c', E 'b', E 'a',
+       .start ⟨[], ['c']⟩ [(⟨[], ['k']⟩, ['2'])], E 'c'] := by decide +kernel
+
+/-- … which is what `xpath_spec_eq_marks_spec` says the mark form gives -/
+example : xpForest (patternSel dACk.paths [] (toXVars [])) dACk.body true forestR
+    = (mkKids dACk.body true forestR (forestR.flatMap (patternMarks dACk.paths [] [] none))).1 :=
+  xpath_spec_eq_marks_spec [] [] none dACk.paths patternXp_dACk dACk.body true forestR treeFor_forestR
+
+/-- the union `a/b|c` (SimplePathStrategy | SingleStepStrategy) marks `<b>` under `<a>` and both `<c>` -/
+example : patternMarks dU.paths [] [] none (forestR.headD (.leaf (T 'u')))
+    = [false, true, true, false, true, false, false, false] := by decide +kernel
+
+end XpExamples
+
+/-! ### `once` as a tree rewrite of its own -/
+
+/-- **`once="true"` replaces the first match in document order — and only that** (any number of matching
+    elements).  The stage of a lawful template with the hint (slot `i`, live, in sync with the open
+    ancestors `anc`), on every forest: the output is `onceList` — the first element, in document order, at
+    which the matcher fires in the state reached along its ancestors is replaced by the body instantiated
+    with START · its content as it stands · END (the template is retired before the content is matched,
+    so nothing inside is replaced, whatever `recursive` says); every event before, inside and after it
+    passes unchanged.  Afterwards the slot is retired if an element matched, and otherwise back in the
+    state it had.  (`once_on_trees` is the special case of at most one match, where this is `specList`.) -/
+theorem once_replaces_first_match {σ : Type} (t : MT σ) (b : σ) (i : Nat) (hl : Lawful t) (ho : t.once = true)
+    (f : Nat) (ns : List Node) (anc : List Open) (M : List (MT σ)) (r : List (MT σ) × List Event)
+    (hns : okList ns = true) (hslot : SlotAt i t b anc M)
+    (h : run f i (some (i + 1)) (evItems (flattenList ns)) M = some r) :
+    r.2 = (onceList t b anc ns).1 ∧
+      (if (onceList t b anc ns).2 then RetAt i r.1 else SlotAt i t b anc r.1) :=
+  once_stage_is_onceList t b i hl ho f ns anc M r hns hslot h
+
+section OnceExamples
+/-- `b` → `<x/>`, once -/
+def tBonce : MT PSt := mkMT (.single (some ['b']) none) [.ev (S 'x'), .ev (E 'x')] ⟨false, true, false⟩
+/-- `<a><c/><b><b/></b></a><b/>`: three elements match `b` -/
+def forestB : List Node :=
+  [.elem ⟨[], ['a']⟩ [] [.elem ⟨[], ['c']⟩ [] [], .elem ⟨[], ['b']⟩ [] [.elem ⟨[], ['b']⟩ [] []]], .elem ⟨[], ['b']⟩ [] []]
+example : countList tBonce {} [] forestB = 3 := by decide
+/-- only the first `<b>` (document order) is replaced -/
+example : onceList tBonce {} [] forestB = ([S 'a', S 'c', E 'c', S 'x', E 'x', E 'a', S 'b', E 'b'], true) := by decide
+example : (run 30 0 (some 1) (evItems (flattenList forestB)) [tBonce]).map (·.2) = some (onceList tBonce {} [] forestB).1 := by
+  decide
+example : SlotAt 0 tBonce ({} : PSt) [] [tBonce] := ⟨tBonce, rfl, Shape.refl _, rfl, rfl⟩
+end OnceExamples
+
+open Genshi.Path in
+/-- **The same for real templates** (`<py:match path=… once="true">`, paths without position tests, any
+    union, any strategy): the stage yields the forest with the first element — document order — at which
+    `Path(text).test(ignore_context=True)` answers `True` replaced by the body, nothing else. -/
+theorem real_once_replaces_first_match (ns : NsMap) (vs : Vars) (ds : List Decl) (hok : ∀ d ∈ ds, d.ok ns vs)
+    (i : Nat) (d : Decl) (hd : ds[i]? = some d) (ho : d.hints.matchOnce = true)
+    (f : Nat) (forest : List Node) (r : List (MT RSt) × List Event) (hns : okList forest = true)
+    (h : run f i (some (i + 1)) (evItems (flattenList forest)) (ds.map (Decl.real ns vs)) = some r) :
+    r.2 = (onceList (d.real ns vs) (d.real ns vs).st [] forest).1 :=
+  real_once_stage_is_onceList ns vs ds hok i d hd ho f forest r hns h
+
+/-- non-vacuity: `a//c[@k]` with `once` on `forestR` doubled — two matches, the first one replaced -/
+example : (onceList ({ dACk with hints := ⟨false, true, false⟩ : Decl }.real [] [])
+      ({ dACk with hints := ⟨false, true, false⟩ : Decl }.real [] []).st [] (forestR ++ forestR)).1
+    = ((run 90 0 (some 1) (evItems (flattenList (forestR ++ forestR)))
+        [{ dACk with hints := ⟨false, true, false⟩ : Decl }.real [] []]).map (·.2)).getD [] := by decide +kernel
+
+open Genshi.Path in
+/-- **`once="true"` replaces the first XPath match in document order.**  The stage that owns a declaration
+    `d` with the hint (paths under the static criterion `PatternXp`, the other declarations free of position
+    tests), on a forest of leaves and clean element trees: the output is `xpOnceForest (patternSel …)` — the
+    first element, in document order, that the XSLT-pattern reading of `d`'s path reaches (`Ref.reach` of
+    `descendant-or-self::s0/rest` inside its top-level tree, for one of the location paths) is replaced by
+    the body, its content as it stands; everything else passes unchanged. -/
+theorem real_once_replaces_first_xpath_match (ns : NsMap) (vs : Vars) (ds : List Decl) (hok : ∀ d ∈ ds, d.ok ns vs)
+    (i : Nat) (d : Decl) (hd : ds[i]? = some d) (ho : d.hints.matchOnce = true)
+    (hp : ∀ p ∈ d.paths, PatternXp ns vs d.force p)
+    (f : Nat) (forest : List Node) (r : List (MT RSt) × List Event) (hns : okList forest = true)
+    (ht : ∀ top ∈ forest, TreeFor ns vs d.paths top)
+    (h : run f i (some (i + 1)) (evItems (flattenList forest)) (ds.map (Decl.real ns vs)) = some r) :
+    r.2 = (xpOnceForest (patternSel d.paths ns (toXVars vs)) d.body forest).1 :=
+  real_once_stage_is_xpOnce ns vs ds hok i d hd ho hp f forest r hns ht h
+
+open Genshi.Path in
+/-- non-vacuity: `a//c[@k]` with `once` on `forestR ++ forestR` (two XPath matches): the first is replaced -/
+example : xpOnceForest (patternSel dACk.paths [] (toXVars [])) dACk.body (forestR ++ forestR)
+    = ([S 'a', S 'b', S 'x', E 'x', .start ⟨[], ['c']⟩ [], E 'c', E 'b', E 'a',
+        .start ⟨[], ['c']⟩ [(⟨[], ['k']⟩, ['2'])], E 'c'] ++ flattenList forestR, true) := by decide +kernel
+
+/-! ### the chain of rewrites with `once` templates among them -/
+
+/-- **filter_is_chain_of_rewrites, `once` templates included.**  For every forest and every template list
+    whose templates of the window `[s, s+k)` are live, lawful, do not read `updateonly` and have
+    well-nested bodies — with or without `once` —: the filter's output is obtained by rewriting the whole
+    document with the first template, re-reading the result as a forest, rewriting it with the second, and
+    so on (`ChainO`), where the rewrite of a template is `stageOut`: `specList` (every match replaced)
+    without the hint, `onceList` (the first match in document order replaced) with it. -/
+theorem filter_is_chain_of_rewrites_with_once {σ : Type} (k s f : Nat) (ns : List Node) (M : List (MT σ))
+    (r : List (MT σ) × List Event) (hns : okList ns = true)
+    (hst : ∀ j t, s ≤ j → j < s + k → M[j]? = some t → StageOKO t) (hlen : s + k ≤ M.length)
+    (hok : ∀ t ∈ M, OKt t) (h : run f s (some (s + k)) (evItems (flattenList ns)) M = some r) :
+    ChainO M s k ns r.2 :=
+  run_is_chainO k s f ns M r hns hst hlen hok h
+
+open Genshi.Path in
+/-- **The same for real templates**: any list of `<py:match>` declarations without position tests (any
+    union, any strategy, any hints): the filter over the window `[s, s+k)` is the chain of the tree
+    rewrites of the declarations in declaration order, `once` declarations rewriting their first match. -/
+theorem real_filter_is_chain_of_rewrites_with_once (ns : NsMap) (vs : Vars) (ds : List Decl)
+    (hok : ∀ d ∈ ds, d.ok ns vs) (hb : ∀ d ∈ ds, BodyOK d.body) (k s f : Nat) (forest : List Node)
+    (r : List (MT RSt) × List Event) (hns : okList forest = true) (hlen : s + k ≤ ds.length)
+    (h : run f s (some (s + k)) (evItems (flattenList forest)) (ds.map (Decl.real ns vs)) = some r) :
+    ChainO (ds.map (Decl.real ns vs)) s k forest r.2 :=
+  real_run_is_chainO ns vs ds hok hb k s f forest r hns hlen h
+
+section ChainOnceExamples
+/-- `[b → <x/> once, a → <w>*</w>]` on `forestB`: the first `<b>` becomes `<x/>`, then `<a>` is wrapped -/
+example : (run 40 0 (some 2) (evItems (flattenList forestB)) [tBonce, tWrap]).map (·.2)
+    = some [S 'w', S 'c', E 'c', S 'x', E 'x', E 'w', S 'b', E 'b'] := by decide
+example : stageOut tBonce forestB = [S 'a', S 'c', E 'c', S 'x', E 'x', E 'a', S 'b', E 'b'] := by decide
+example : StageOKO tBonce :=
+  ⟨rfl, lawful_single _ _ _, fun _ _ _ _ => rfl, by intro st; simp [tBonce, mkMT, MT.ofHints, trackB, track, S, E]⟩
+end ChainOnceExamples
+
+/-! ### an attribute step in a union: outside `PatternXp`, and why -/
+
+section UnionAttr
+open Genshi.Path
+/-- `b/@n` and `b` as the parser delivers them -/
+def pBn : LocPath := [⟨.child, .localName false ['b'], []⟩, ⟨.attribute, .localName true ['n'], []⟩]
+def pBonly : LocPath := [⟨.child, .localName false ['b'], []⟩]
+example : parse "b/@n|b".toList = .ok [pBn, pBonly] := by decide +kernel
+
+/-- **Witness of the known finding C12-union-attribute-operand.**  The union dispatcher `_multi` reports
+    one operand per event — the first result that is not `None` —, and `_match` fires on `True` only.  On
+    `<b n="1"/>` the operand `b/@n` answers an `Attrs` value, which hides the `True` of the operand `b`:
+    with `path="b/@n|b"` the element is NOT replaced although the path matches it (second conjunct: with
+    the operands in the other order it is).  So the tree-rewrite-by-XPath theorems exclude the attribute
+    axis (`PatternXp`, `StepsOk.na`); the same root as C05-union-attribute-and-owner. -/
+theorem union_attribute_operand_masks_match :
+    render 30 [.ev (S 'r'), .reg (mkReal [pBn, pBonly] [] [] [.ev (T 'k')] noHints),
+               .ev (.start ⟨[], ['b']⟩ [(⟨[], ['n']⟩, ['1'])]), .ev (E 'b'), .ev (E 'r')]
+      = some [S 'r', .start ⟨[], ['b']⟩ [(⟨[], ['n']⟩, ['1'])], E 'b', E 'r'] ∧
+    render 30 [.ev (S 'r'), .reg (mkReal [pBonly, pBn] [] [] [.ev (T 'k')] noHints),
+               .ev (.start ⟨[], ['b']⟩ [(⟨[], ['n']⟩, ['1'])]), .ev (E 'b'), .ev (E 'r')]
+      = some [S 'r', T 'k', E 'r'] := by
+  constructor <;> decide +kernel
+end UnionAttr
 
 end Genshi.Props.C12
